@@ -1147,3 +1147,51 @@ m('C04','vp9-start-always',C,
 m('C04','benign-vp8-start-local',C,
   'flags.Start = vp8.S != 0 && vp8.PID == 0\n','start := vp8.PID == 0 && vp8.S != 0\n\t\tflags.Start = start\n',
   '','','the start condition named by a local',benign=True)
+# ---------------- C09 R9.6 (round-3 seed C09-4) ----------------
+ST='token/stateful.go'
+m('C09','clone-notbefore-from-issuedat',ST,
+  '\t\tNotBefore:        token.NotBefore,','\t\tNotBefore:        token.IssuedAt,',
+  'R9.6','Clone: NotBefore','the stored copy of a token is valid from its issue time, not from its not-before time',quick=True)
+m('C09','clone-drops-expires',ST,
+  '\t\tExpires:          token.Expires,\n','',
+  'R9.6','Clone: Expires','the stored copy has no expiry')
+m('C09','clone-group-from-token',ST,
+  '\t\tGroup:            token.Group,','\t\tGroup:            token.Token,',
+  'R9.6','Clone: Group','the stored copy is scoped to another group')
+m('C09','benign-clone-whole-copy',ST,
+  '\treturn &Stateful{\n\t\tToken:            token.Token,\n\t\tGroup:            token.Group,\n\t\tIncludeSubgroups: token.IncludeSubgroups,\n\t\tUsername:         token.Username,\n\t\tPermissions:      append([]string(nil), token.Permissions...),\n\t\tExpires:          token.Expires,\n\t\tNotBefore:        token.NotBefore,\n\t\tIssuedAt:         token.IssuedAt,\n\t\tIssuedBy:         token.IssuedBy,\n\t}',
+  '\tc := *token\n\tc.Permissions = append([]string(nil), token.Permissions...)\n\treturn &c',
+  '','','whole-struct copy, then the slice',benign=True)
+# ---------------- C15 R15.7 (round-3 seed C15-4) ----------------
+G='group/group.go'
+m('C15','history-shared-view',G,
+  '\th := make([]ChatHistoryEntry, len(g.history))\n\tcopy(h, g.history)\n\treturn h','\treturn g.history[:len(g.history):len(g.history)]',
+  'R15.7','GetChatHistory returns a private copy','the replay reads the group\'s array while clearchat compacts it',quick=True)
+m('C15','history-shared-direct',G,
+  '\th := make([]ChatHistoryEntry, len(g.history))\n\tcopy(h, g.history)\n\treturn h','\th := g.history\n\treturn h',
+  'R15.7','GetChatHistory returns a private copy','the group\'s own slice is handed out')
+m('C15','benign-history-clone',G,
+  '\th := make([]ChatHistoryEntry, len(g.history))\n\tcopy(h, g.history)\n\treturn h','\treturn append([]ChatHistoryEntry(nil), g.history...)',
+  '','','append to nil instead of make+copy',benign=True)
+# ---------------- C16 R16.7 (round-3 seed C16-4) ----------------
+m('C16','etag-cached-never-reset',ST,
+  'func (state *state) etag() string {\n\tif state.modTime.Equal(time.Time{}) {\n\t\treturn ""\n\t}\n\treturn fmt.Sprintf("\\"%v-%v\\"",\n\t\tstate.fileSize, state.modTime.UnixNano(),\n\t)\n}',
+  'var cachedTag string\n\nfunc (state *state) etag() string {\n\tif state.modTime.Equal(time.Time{}) {\n\t\treturn ""\n\t}\n\tif cachedTag == "" {\n\t\tcachedTag = fmt.Sprintf("\\"%v-%v\\"",\n\t\t\tstate.fileSize, state.modTime.UnixNano(),\n\t\t)\n\t}\n\treturn cachedTag\n}',
+  'R16.7','etag() derives the tag','a cached tag survives a change of the mirrored version',quick=True)
+m('C16','etag-ignores-size',ST,
+  '\treturn fmt.Sprintf("\\"%v-%v\\"",\n\t\tstate.fileSize, state.modTime.UnixNano(),\n\t)','\treturn fmt.Sprintf("\\"%v\\"",\n\t\tstate.modTime.UnixNano(),\n\t)',
+  'R16.7','etag() derives the tag','two versions written within one clock tick get the same tag')
+m('C02','vp8-start-ignores-partition',C,
+  'flags.Start = vp8.S != 0 && vp8.PID == 0','flags.Start = vp8.S != 0',
+  'R2.6','PacketFlags: Start set','every partition of a multi-partition VP8 frame counts as a frame start: a frame is half withheld and its tail carries the previous picture id',quick=True)
+# ---------------- C07 R7.7 (round-3 seed C07-4) ----------------
+m('C07','delayed-push-skipped-when-closed',R,
+  '\t\tpushed := up.pushed\n\t\tup.pushed = true','\t\tpushed := up.pushed || up.closed\n\t\tup.pushed = true',
+  'R7.7','pushConn: delayed announcement','a stream closed before its first announcement never passes on the id it replaces',quick=True)
+m('C07','delayed-push-never',R,
+  '\t\tif !pushed {\n\t\t\tpushConnNow(up, g, cs)\n\t\t}','\t\tif !pushed && len(cs) > 1 {\n\t\t\tpushConnNow(up, g, cs)\n\t\t}',
+  'R7.7','pushConn: delayed announcement','a single subscriber is never told')
+m('C07','benign-delayed-early-return',R,
+  '\t\tup.mu.Lock()\n\t\tpushed := up.pushed\n\t\tup.pushed = true\n\t\tup.mu.Unlock()\n\t\tif !pushed {\n\t\t\tpushConnNow(up, g, cs)\n\t\t}',
+  '\t\tup.mu.Lock()\n\t\tif up.pushed {\n\t\t\tup.mu.Unlock()\n\t\t\treturn\n\t\t}\n\t\tup.pushed = true\n\t\tup.mu.Unlock()\n\t\tpushConnNow(up, g, cs)',
+  '','','early return on the flag',benign=True)
